@@ -236,7 +236,7 @@ Definition fredeem (e : fenv) (cfg : config) (x : fstate) (auth : option nat) (c
                 else
                   let stored := {| r_id := r_id r; r_client := c; r_cl := cl; r_rscopes := r_rscopes r; r_gscopes := r_gscopes r;
                                    r_raud := r_raud r; r_gaud := r_gaud r; r_sess := se; r_redirect := "";
-                                   r_challenge := ""; r_method := ""; r_at := now s |} in
+                                   r_challenge := ""; r_method := ""; r_mode := ""; r_at := now s |} in
                   match tx_block e x3 MInvalidateCode (inval_code k) (r_id r) (can_refresh cfg (r_gscopes r) (r_cl r)) stored srv with
                   | (x5, inl err) => ffail x5 err
                   | (x5, inr (ka, kr)) =>
@@ -290,20 +290,6 @@ Definition freuse (e : fenv) (x : fstate) (k : nat) (rid : nat) : fstate * optio
     end
   end.
 
-(* handleRefreshTokenReuse(ctx, signature, nil): MaybeBeginTx, DeleteRefreshTokenSession (nothing to delete),
-   then req.GetID() on a nil requester: the request ends in a panic, the transaction is never finished *)
-Definition fpanic (e : fenv) (x : fstate) : fstate * obs :=
-  match begin_tx e x with
-  | (Some _, x1) => ffail x1 "server_error"
-  | (None, x1) =>
-      match wr e x1 MDeleteRT ROk with
-      | (Some f, x2) =>
-          let (x3, oe) := abort e x2 (refresh_err f) in
-          ffail x3 (match oe with Some err => err | None => "server_error" end)
-      | (None, x2) => ffail x2 "PANIC"
-      end
-  end.
-
 Definition frefresh (e : fenv) (cfg : config) (x : fstate) (auth : option nat) (tok : pres) : fstate * obs :=
   let s := f_s x in
   match auth with
@@ -324,11 +310,11 @@ Definition frefresh (e : fenv) (cfg : config) (x : fstate) (auth : option nat) (
       | (Some FNotFound, x1) => ffail x1 "invalid_grant"
       | (Some FInactive, x1) =>
           (* the store answers "inactive" for a live token: handled as a reuse of that token.  When it answers
-             "inactive" for a token it has no record of, there is no request to hand back and the handler
-             dereferences nil after the delete: see [fpanic] *)
+             "inactive" without handing back the stored request (here: for a token it has no record of) the
+             request is refused before any write or BeginTX (the nil check added by 8ec4c3a) *)
           match find (refresh (st s)) key, key with
           | Some (_, r), Some k => reuse x1 k (r_id r)
-          | _, _ => fpanic e x1
+          | _, _ => ffail x1 "server_error"
           end
       | (Some _, x1) => ffail x1 "server_error"
       | (None, x1) =>
@@ -346,7 +332,7 @@ Definition frefresh (e : fenv) (cfg : config) (x : fstate) (auth : option nat) (
             let se := set_token_expiries (eff_cfg cfg cl LRefresh) (now s) (r_sess r) in
             let stored := {| r_id := r_id r; r_client := c; r_cl := cl; r_rscopes := r_rscopes r; r_gscopes := r_gscopes r;
                              r_raud := r_raud r; r_gaud := r_gaud r; r_sess := se; r_redirect := "";
-                             r_challenge := ""; r_method := ""; r_at := now s |} in
+                             r_challenge := ""; r_method := ""; r_mode := ""; r_at := now s |} in
             match tx_block e x1 MRotateRT (fun v => let (v', oe) := rotate_refresh v (r_id r) in (v', serr_class oe))
                            (r_id r) true stored refresh_err with
             | (x5, inl err) => ffail x5 err
@@ -389,7 +375,7 @@ Definition fdevice (e : fenv) (cfg : config) (x : fstate) (auth : option nat) (d
             let se := set_token_expiries cfg (now s) (r_sess r) in
             let stored := {| r_id := r_id r; r_client := c; r_cl := cl; r_rscopes := r_rscopes r; r_gscopes := r_gscopes r;
                              r_raud := r_raud r; r_gaud := r_gaud r; r_sess := se; r_redirect := "";
-                             r_challenge := ""; r_method := ""; r_at := now s |} in
+                             r_challenge := ""; r_method := ""; r_mode := ""; r_at := now s |} in
             (* PopulateTokenEndpointResponse: GetDeviceCodeSession once more; every error is wrapped as server_error *)
             match rd e x1 MGetDevice ROk with
             | (Some _, x2) => ffail x2 "server_error"
@@ -436,7 +422,7 @@ Definition fpassword (e : fenv) (cfg : config) (x : fstate) (auth : option nat) 
         let (rid, s1) := fresh_rid (f_s x1) in
         let stored := {| r_id := rid; r_client := c; r_cl := cl; r_rscopes := scopes; r_gscopes := granted;
                          r_raud := aud; r_gaud := gaud; r_sess := se; r_redirect := "";
-                         r_challenge := ""; r_method := ""; r_at := now s |} in
+                         r_challenge := ""; r_method := ""; r_mode := ""; r_at := now s |} in
         let '(ka, kr, s2) := mint_pair s1 rid w in
         match wr e (with_s x1 s2) MCreateAT ROk with
         | (Some f, x2) => ffail x2 (raw_err f)
@@ -475,7 +461,7 @@ Definition fclient_credentials (e : fenv) (cfg : config) (x : fstate) (auth : op
         let (rid, s1) := fresh_rid (f_s x) in
         let stored := {| r_id := rid; r_client := c; r_cl := cl; r_rscopes := scopes; r_gscopes := granted;
                          r_raud := aud; r_gaud := gaud; r_sess := se; r_redirect := "";
-                         r_challenge := ""; r_method := ""; r_at := now s |} in
+                         r_challenge := ""; r_method := ""; r_mode := ""; r_at := now s |} in
         let '(ka, kr, s2) := mint_pair s1 rid false in
         match wr e (with_s x s2) MCreateAT ROk with
         | (Some f, x2) => ffail x2 (raw_err f)
